@@ -14,8 +14,8 @@ BASE_TRUSTED = [
     'OCaml 4.13.1 compiler; ocaml/driver.ml + ocaml/zutil.ml (case parser / printer) hand-written',
     'Flocq 4.1.0 binary64/binary32 operations instantiate the abstract float operations for execution only '
     '(Inst/FloatInst.v; depends on the standard real-number axioms sig_not_dec, sig_forall_dec, '
-    'functional_extensionality_dep, classic) - the theorems hold for every float-operation record; the one theorem that speaks about real numbers, '
-    'C07_xff_valid_iff_number_in_unit_interval, depends on exactly these four standard-library axioms (Print Assumptions output is in the evidence)',
+    'functional_extensionality_dep, classic) - the theorems hold for every float-operation record; the three theorems that speak about real numbers, '
+    'C07_xff_valid_iff_number_in_unit_interval, C02_known_fraction_test_meaning and C02_fraction_at_least_xff_is_stored, depend on exactly these four standard-library axioms (Print Assumptions output is in the evidence)',
     'harness/cmd/wtdriver (Go driver), lib/*.py (generators, comparison, shrinking): differential testing, '
     'ties model and code only on the generated cases',
 ]
